@@ -18,7 +18,7 @@ Guards(e) ==
             {<<"G_C15_RoundTrip", e.out.readback = e.out.wrote>>,
              <<"G_C15_OthersUntouched", \A u \in Users \ {e.args.user} : e.post.prim[u] = prim[u] /\ e.post.psig[u] = psig[u]>>}
       [] e.ev = "sync" ->
-            {<<"G_C15_SyncWorks", e.args.k = 0 => e.out.ok>>,
+            {<<"G_C15_SyncWorks", (e.args.k = 0 /\ ~("pk" \in DOMAIN e.args /\ e.args.pk # 0)) => e.out.ok>>,
              <<"G_C15_MirrorAfterSync", e.out.ok => ObsContent(e) = ObsPrimWant(e)>>,
              <<"G_C15_NoMixture", ~e.out.ok => ObsContent(e) \in {Content(mirr, msig, mexp), Snapshot}>>,
              <<"G_C15_PrimaryUntouchedBySync", ObsU(e.post.prim) = prim /\ ObsU(e.post.psig) = psig>>}
